@@ -539,7 +539,8 @@ pub fn gen_machine(rng: &mut Rng) -> Machine {
     0 => { m.ill = IllFormed::TargetUndeclared; retarget(&mut m, rng, 4); }
     1 => { m.ill = IllFormed::TargetDeclaredWithoutArm; retarget(&mut m, rng, 5); }
     2 => { m.ill = IllFormed::OutputOfOtherKind; }
-    3 if n_states >= 2 => { m.ill = IllFormed::UndeclaredStateWithArm(1 + rng.usize(n_states - 1)); }
+    // (state 0 is the start state: a machine may not start in a state its specification does not declare either)
+    3 => { m.ill = IllFormed::UndeclaredStateWithArm(rng.usize(n_states)); }
     _ => {}
   }
   m
